@@ -79,6 +79,36 @@ def symmetric(rng, n):
     return out
 
 
+def mixed_pile(rng, n):
+    """a coalition holding exactly k quotas whose first choice also leads a few *outsider* ballots: under the random transfer the
+    coalition keeps its seats only if the surplus is a sub-collection drawn without replacement from the winner's pile"""
+    out = []
+    tries = 0
+    while len(out) < n and tries < 50 * n:
+        tries += 1
+        nc = rng.randint(3, 4)
+        cands = D.ABC[:nc]
+        m = rng.randint(2, nc - 1)
+        S = rng.sample(cands, 2)
+        others = [c for c in cands if c not in S]
+        t = rng.randint(2, 6)
+        k = 2
+        x = rng.randint(1, max(1, t - 1))
+        y = rng.randint(0, 2 * t)
+        N = k * t + x + y
+        if N // (m + 1) + 1 != t:
+            continue
+        o = rng.choice(others)
+        ballots = [{"r": [[S[0]], [S[1]]] + ([[o]] if rng.random() < 0.4 else []), "w": [k * t, 1]},
+                   {"r": [[S[0]], [o]] + ([[S[1]]] if rng.random() < 0.4 else []), "w": [x, 1]}]
+        if y:
+            o2 = rng.choice(others)
+            ballots.append({"r": [[o2]] + ([[o]] if o != o2 and rng.random() < 0.5 else []), "w": [y, 1]})
+        cfg = base_cfg(rule="STV", m=m, simul=rng.random() < 0.5, xfer="random", tb=rng.choice(["random", "borda"]))
+        out.append({"cfg": cfg, "cands": cands, "ballots": ballots, "mode": "explore", "max_paths": 400, "seed": rng.randrange(10**6)})
+    return out
+
+
 def corpus(tier, seed):
     rng = random.Random(700 + seed)
     cands = ["A", "B", "C"]
@@ -90,6 +120,7 @@ def corpus(tier, seed):
         inputs += EL.inputs_exhaustive(rng, cands, rk, 3, D.INT_W(2), cfgs, per_bag=6)
     inputs += planted(rng, 500 if q else 8000)
     inputs += symmetric(rng, 400 if q else 6000)
+    inputs += mixed_pile(rng, 250 if q else 4000)
     return EL.add_slow_slice(rng, inputs, 100 if q else 1000)
 
 
